@@ -51,8 +51,12 @@ def check(F, rep):
     rep.ob("order", bool(fail_targets) and qb not in reach and nb not in reach, site(f, ts[0][0]),
            "a header value that is not visible ASCII ends the extraction (no fallback to the query, no further headers)", skey(F, f, "non-ascii-aborts"))
     rets = [(b, i, rv) for b, i, rv in returns_of(f) if b in reach]
-    rep.ob("order", bool(rets) and all(i is None and is_call_to(rv, "core::ops::try_trait::FromResidual::from_residual") for b, i, rv in rets), site(f, ts[0][0]),
-           "that path returns the `?` residual (None)", skey(F, f, "non-ascii-none"))
+    def is_none(i, rv):
+        if i is None:
+            return is_call_to(rv, "core::ops::try_trait::FromResidual::from_residual")
+        return (rv["k"] == "agg" and rv.get("variant") == "None") or (rv["k"] == "use" and rv["o"]["k"] == "const" and "None" in str(rv["o"].get("v")))
+    rep.ob("order", bool(rets) and all(is_none(i, rv) for b, i, rv in rets), site(f, ts[0][0]),
+           "that path returns None (`?` residual or an explicit None)", skey(F, f, "non-ascii-none"))
     # (ii) first match wins: Some(token) returned inside the loop, guarded by scheme match
     somes = [(b, i, rv) for b, i, rv in returns_of(f) if i is not None and rv["k"] == "agg" and rv.get("variant") == "Some"]
     rep.exact("order", "`Some(token)` returns", len(somes), 1)
